@@ -1514,7 +1514,7 @@ class ISVMachine(FactorAnalysisBase):
 
     def transform(self, X):
         ubm_projected_X = self.ubm.acc_stats(X)
-        return self.estimate_ux(ubm_projected_X)
+        return self.estimate_ux([ubm_projected_X])
 
     def enroll(self, X):
         """
